@@ -9,6 +9,7 @@
 import DDV.Extracted.Tables
 import DDV.Gen.AddrSem
 import DDV.Gen.Lemmas.MinMax
+import DDV.Gen.Lemmas.Tree
 
 namespace DDV.Props.C13
 open DDV.Gen DDV.Extracted
@@ -133,19 +134,6 @@ theorem inRangeList_widen (sel : Object → Bool) (lo hi lo' hi' : Int) (h1 : lo
     exact ⟨inRange_widen sel lo hi lo' hi' h1 h2 o base hb.1, inRangeList_widen sel lo hi lo' hi' h1 h2 os base hb.2⟩
 end
 
-/-- The three selections of `address_types_big_enough`. -/
-def selRegister (o : Object) : Bool := isBlock o || match o with
-    | .register _ => true
-    | .ref r => (match r.override with | .register _ => true | _ => false)
-    | _ => false
-def selCommand (o : Object) : Bool := isBlock o || match o with
-    | .command _ => true
-    | .ref r => (match r.override with | .command _ => true | _ => false)
-    | _ => false
-def selBuffer (o : Object) : Bool := isBlock o || match o with
-    | .buffer _ => true
-    | _ => false
-
 /-- One address-type check of the pass, as a standalone function. -/
 def checkKind (os : List Object) (t : Option Integer) (sel : Object → Bool) : Prop :=
   match t with
@@ -222,5 +210,164 @@ example : checkKind [.block { name := "b", addressOffset := 20, repeat_ := none 
                   allowAddressOverlap := false, address := 50, sizeBits := 8, reset := none,
                   repeat_ := some ⟨3, 10⟩, fields := [] }]] (some .i8) selRegister :=
   ⟨0, 90, rfl, by decide, by decide⟩
+
+/-! ### The pass itself: acceptance and the error it reports -/
+
+theorem checkAddrKind_ok_iff (os : List Object) (kind : String) (t : Option Integer) (sel : Object → Bool) :
+    checkAddrKind os kind t sel = .ok () ↔ checkKind os t sel := by
+  unfold checkAddrKind checkKind
+  cases t with
+  | none => simp
+  | some ty =>
+    simp only
+    cases hf : findMinMax os sel with
+    | error e => simp
+    | ok p =>
+      obtain ⟨mn, mx⟩ := p
+      simp only [ge_iff_le, Except.ok.injEq, Prod.mk.injEq]
+      by_cases h1 : ty.minValue ≤ mn
+      · by_cases h2 : mx ≤ ty.maxValue
+        · simp only [h1, h2, not_true_eq_false, if_false, true_iff]
+          exact ⟨mn, mx, ⟨rfl, rfl⟩, h1, h2⟩
+        · simp only [h1, h2, not_true_eq_false, not_false_eq_true, if_false, if_true, reduceCtorEq, false_iff]
+          intro ⟨a, b, ⟨ha, hb⟩, _, hh⟩
+          subst hb; exact h2 hh
+      · simp only [h1, not_false_eq_true, if_true, reduceCtorEq, false_iff]
+        intro ⟨a, b, ⟨ha, hb⟩, hh, _⟩
+        subst ha; exact h1 hh
+
+/-- **Rejected with an error stating the offending bound.** When a check of the pass fails without
+    a panic, the error is `addr_too_low_<kind>` / `addr_too_high_<kind>` and carries exactly two
+    numbers: the extreme address the analysis reached — which lies strictly beyond the type's
+    limit — and that limit. -/
+theorem rejection_states_the_offending_bound (os : List Object) (kind : String) (ty : Integer) (sel : Object → Bool)
+    (e : Err) (h : checkAddrKind os kind (some ty) sel = .error (.error e)) :
+    (∃ mn mx, findMinMax os sel = .ok (mn, mx) ∧
+      ((e.kind = s!"addr_too_low_{kind}" ∧ e.numbers = [mn, ty.minValue] ∧ mn < ty.minValue) ∨
+       (e.kind = s!"addr_too_high_{kind}" ∧ e.numbers = [mx, ty.maxValue] ∧ ty.maxValue < mx))) ∨
+    findMinMax os sel = .error (.error e) := by
+  unfold checkAddrKind at h
+  simp only at h
+  cases hf : findMinMax os sel with
+  | error x =>
+    rw [hf] at h
+    right
+    simp only [Except.error.injEq] at h
+    rw [h]
+  | ok p =>
+    obtain ⟨mn, mx⟩ := p
+    rw [hf] at h
+    simp only at h
+    left
+    refine ⟨mn, mx, rfl, ?_⟩
+    by_cases h1 : mn ≥ ty.minValue
+    · simp only [h1, not_true_eq_false, if_false] at h
+      by_cases h2 : mx ≤ ty.maxValue
+      · simp [h2] at h
+      · simp only [h2, not_false_eq_true, if_true, Except.error.injEq] at h
+        right
+        unfold passErr at h
+        have := Stop.error.inj h
+        subst this
+        exact ⟨rfl, rfl, by omega⟩
+    · simp only [h1, not_false_eq_true, if_true, Except.error.injEq] at h
+      left
+      unfold passErr at h
+      have := Stop.error.inj h
+      subst this
+      exact ⟨rfl, rfl, by omega⟩
+
+/-- **The pass accepts iff all three checks hold** (and then changes nothing). -/
+theorem address_types_big_enough_iff (d : Device) :
+    addressTypesBigEnough d = .ok d ↔
+      checkKind d.objects d.config.registerAddressType selRegister ∧
+      checkKind d.objects d.config.commandAddressType selCommand ∧
+      checkKind d.objects d.config.bufferAddressType selBuffer := by
+  unfold addressTypesBigEnough
+  rw [← checkAddrKind_ok_iff d.objects "register", ← checkAddrKind_ok_iff d.objects "command",
+      ← checkAddrKind_ok_iff d.objects "buffer"]
+  cases h1 : checkAddrKind d.objects "register" d.config.registerAddressType selRegister with
+  | error e => simp
+  | ok u =>
+    cases h2 : checkAddrKind d.objects "command" d.config.commandAddressType selCommand with
+    | error e => simp
+    | ok u2 =>
+      cases h3 : checkAddrKind d.objects "buffer" d.config.bufferAddressType selBuffer with
+      | error e => simp
+      | ok u3 => simp
+
+/-! ### A missing address type for a used object kind is rejected -/
+
+theorem forM_unit_ok_iff {α : Type} (f : α → M Unit) :
+    ∀ (l : List α), l.forM f = .ok () ↔ ∀ x ∈ l, f x = .ok ()
+  | [] => by simp [List.forM, pure, Except.pure]
+  | a :: as => by
+    have hc : (a :: as).forM f = (match f a with | .error e => .error e | .ok _ => as.forM f) := by
+      show (f a >>= fun _ => as.forM f) = _
+      simp only [bind, Except.bind]
+      cases f a <;> rfl
+    rw [hc]
+    simp only [List.mem_cons, forall_eq_or_imp]
+    cases h : f a with
+    | error e => simp
+    | ok u =>
+      cases u
+      simp only [true_and]
+      exact forM_unit_ok_iff f as
+
+/-- **`address_types_specified` accepts iff every object kind in use has an address type** (at any
+    depth of the tree). -/
+theorem address_types_specified_iff (d : Device) :
+    isOk (addressTypesSpecified d) ↔
+      ((∃ r, Object.register r ∈ allObjects d.objects) → d.config.registerAddressType.isSome = true) ∧
+      ((∃ c, Object.command c ∈ allObjects d.objects) → d.config.commandAddressType.isSome = true) ∧
+      ((∃ b, Object.buffer b ∈ allObjects d.objects) → d.config.bufferAddressType.isSome = true) := by
+  unfold addressTypesSpecified isOk
+  simp only [bind, Except.bind, pure, Except.pure]
+  generalize hf : (fun o => match o with
+    | Object.register _ => if d.config.registerAddressType.isNone = true then throw (passErr "no_addr_type_register") else Except.ok ()
+    | Object.command _ => if d.config.commandAddressType.isNone = true then throw (passErr "no_addr_type_command") else Except.ok ()
+    | Object.buffer _ => if d.config.bufferAddressType.isNone = true then throw (passErr "no_addr_type_buffer") else Except.ok ()
+    | _ => Except.ok () : Object → M Unit) = f
+  have key : (allObjects d.objects).forM f = .ok () ↔ _ := forM_unit_ok_iff f (allObjects d.objects)
+  constructor
+  · intro ⟨a, ha⟩
+    cases hm : (allObjects d.objects).forM f with
+    | error e => rw [hm] at ha; cases ha
+    | ok u =>
+      cases u
+      have hall := key.1 hm
+      refine ⟨?_, ?_, ?_⟩
+      · intro ⟨r, hr⟩
+        have := hall _ hr
+        rw [← hf] at this
+        cases h : d.config.registerAddressType <;> simp_all [throw, throwThe, MonadExceptOf.throw]
+      · intro ⟨c, hc⟩
+        have := hall _ hc
+        rw [← hf] at this
+        cases h : d.config.commandAddressType <;> simp_all [throw, throwThe, MonadExceptOf.throw]
+      · intro ⟨b, hb⟩
+        have := hall _ hb
+        rw [← hf] at this
+        cases h : d.config.bufferAddressType <;> simp_all [throw, throwThe, MonadExceptOf.throw]
+  · intro ⟨h1, h2, h3⟩
+    have : (allObjects d.objects).forM f = .ok () := by
+      apply key.2
+      intro o ho
+      rw [← hf]
+      cases o with
+      | register r =>
+        have := h1 ⟨r, ho⟩
+        cases h : d.config.registerAddressType <;> simp_all
+      | command c =>
+        have := h2 ⟨c, ho⟩
+        cases h : d.config.commandAddressType <;> simp_all
+      | buffer b =>
+        have := h3 ⟨b, ho⟩
+        cases h : d.config.bufferAddressType <;> simp_all
+      | block hd os => rfl
+      | ref r => rfl
+    rw [this]
+    exact ⟨d, rfl⟩
 
 end DDV.Props.C13
